@@ -524,16 +524,20 @@ theorem inv_step {s s' : St} {a : Act} (h : Inv s) (hs : step s a = some s') : I
     · cases hs; exact h
     · cases hs
   | childStopInv c =>
+    have key : Inv (if ranAndReturned s c = true then { s with okd := c :: s.okd } else s) := by
+      split
+      · exact ⟨h.g, h.nilBoot, h.ctxSet, h.early, h.rlLive, h.returned⟩
+      · exact h
     simp only [step] at hs
     split at hs
     · split at hs
-      · cases hs; exact h
+      · cases hs; exact key
       · cases hs
     · split at hs
-      · cases hs; exact h
+      · cases hs; exact key
       · cases hs
     · split at hs
-      · cases hs; exact h
+      · cases hs; exact key
       · cases hs
     · cases hs
 
